@@ -80,7 +80,7 @@ Inductive sub :=
 | ModifyIndex (from to : idx) (parts comment : bool)
 | ModifyForeignKey (from to : fk)
 | AddPrimaryKey | DropPrimaryKey | ModifyPrimaryKey
-| TableComment.                                   (* AddAttr / ModifyAttr of schema.Comment *)
+| TableComment (added : bool).                    (* AddAttr (added) / ModifyAttr of schema.Comment *)
 
 Inductive change :=
 | AddTable (t : tab) | DropTable (t : tab) | RenameTable (from to : obj)
@@ -196,7 +196,10 @@ Definition alter_bwd (pg : bool) (s : sub) : list ref :=
       if pg && ty && negb ser then match fe with Some (ns, n) => [RType ns n] | None => [] end else []
   | _ => []
   end.
-Definition irreversible (s : sub) : bool := match s with AddCheck false => true | _ => false end.
+(* an unnamed CHECK; mysql: an added table attribute (the AddAttr arm of alterTable clears [reversible],
+   fix C17-mysql-table-attr-reverse; in postgres a table comment never reaches alterTable) *)
+Definition irreversible (s : sub) : bool :=
+  match s with AddCheck false => true | TableComment true => true | _ => false end.
 
 (* postgres alterTable: sort.SliceStable, constraint drops first *)
 Definition dropConst (s : sub) : bool :=
@@ -282,7 +285,7 @@ Definition pg_modify_table (t : tab) (subs : list sub) : list stmt :=
       end) l
   ++ flat_map (fun s =>
        match s with
-       | TableComment => pg_table_comment o
+       | TableComment _ => pg_table_comment o
        | AddIndex i => if i_comment i then pg_index_comment o i else []
        | ModifyIndex _ to _ true => pg_index_comment o to
        | AddColumn c => if c_comment c then pg_column_comment o c else []
